@@ -411,6 +411,36 @@ def coords(tier, seed):
             _one(run, meshes[m_i], exps[m_i], sc, seq)
             if len(samples) < 3:
                 samples.append({"mesh": meshes[m_i]["name"], "scenario": list(sc), "access_order": list(seq)})
+    # ---- Cartesian corners given as INTEGER arrays (a grid keeps the dtype it is handed): after normalize_cartesian_coordinates() the
+    #      stored node_x/y/z are unit vectors in the direction of the corners given, and they agree with node_lon / node_lat whichever was
+    #      read first
+    import uxarray as ux
+    iverts = np.array([[[3, 1, 2], [4, 1, 2], [4, 2, 2], [3, 2, 2]], [[4, 1, 2], [5, 1, 1], [5, 2, 1], [4, 2, 2]],
+                       [[-3, 1, -2], [-3, 2, -2], [-4, 2, -2], [-4, 1, -2]]], dtype=np.int64)
+    for first in ("lonlat_before_normalize", "normalize_first"):
+        run.cases += 1
+        distinct.add(("integer_xyz", first))
+        inputs = {"construction": "Grid.from_face_vertices(int64 xyz, latlon=False)", "order": first}
+        try:
+            g = ux.Grid.from_face_vertices(iverts.copy(), latlon=False)
+            raw = np.stack([np.asarray(g.node_x.values, float), np.asarray(g.node_y.values, float), np.asarray(g.node_z.values, float)], axis=1)
+            want = raw / np.linalg.norm(raw, axis=1, keepdims=True)
+            if first == "lonlat_before_normalize":
+                g.node_lon, g.node_lat
+            g.normalize_cartesian_coordinates()
+            P = np.stack([np.asarray(g.node_x.values, float), np.asarray(g.node_y.values, float), np.asarray(g.node_z.values, float)], axis=1)
+            L = _vec(np.asarray(g.node_lon.values, float), np.asarray(g.node_lat.values, float))
+        except Exception as e:  # noqa: BLE001
+            run.fail(f"raises:{type(e).__name__}:integer_xyz:{first}", f"integer Cartesian corners: {type(e).__name__}: {e}"[:200],
+                     "spherical and Cartesian coordinates of the same element denote the same point", inputs)
+            continue
+        if not np.allclose(P, want, rtol=0, atol=1e-12):
+            run.fail("normalize_changes_direction:node:integer_xyz", "after normalize_cartesian_coordinates() the node_x/y/z of a grid given by integer "
+                     "Cartesian corners are not the unit vectors in the direction of those corners", "Cartesian coordinates are unit vectors in the direction given",
+                     inputs, np.round(P[:3], 6).tolist(), np.round(want[:3], 6).tolist())
+        elif not np.allclose(L, want, rtol=0, atol=1e-9):
+            run.fail("lonlat_xyz_disagree:node:integer_xyz", "node_lon / node_lat and node_x/y/z of a grid given by integer Cartesian corners denote different points",
+                     "spherical and Cartesian coordinates of the same element denote the same point", inputs, np.round(L[:3], 6).tolist(), np.round(want[:3], 6).tolist())
     bound = (f"{len(scen)} provenance scenarios (nodes lonlat/xyz/both x face centres none/lonlat/xyz/both x edge centres "
              f"none/lonlat/xyz/both x lon in [-180,180] / 0..360, plus 7 with supplied xyz of radius 2) x "
              f"{'4 of the 73 ordered prefixes of <=2 representative properties + 3 fixed + 3 random orders of 3-4 of the 15 properties per scenario' if tier == 'quick' else 'all 73 ordered prefixes of <=2 of 9 representative properties + 3 fixed + 60 random orders of 3-4 of the 15 properties per scenario'}"
